@@ -22,7 +22,7 @@ use crate::util::*;
 pub const PROP: Prop = Prop {
     id: "C19",
     level: "exploration",
-    rule: "(round 8: nests at the measured nesting limit truncated at every byte; dot-, sign- and other one-character tokens at every list position; over-long decimal literals with a negative exponent - the recorded finding) (rounds 6-7: str::parse and the other option-less entry points; the character names of R6RS, R7RS and common extensions and the other fixed vocabularies of Lisp readers, and every generated text the reader accepts as one datum, truncated at every byte) (plus the I/O clause: a stream that fails - with each of four error kinds - before its first byte, or right after the last byte of a complete datum, must give an I/O-category error that converts back to the stream's own error; the predicates is_eof/is_syntax/is_io must agree with classify()) (loc) malformed inputs from the token-alphabet, mutation, string-literal and random-byte generators x sampled parser option sets x three sources x value/datum API: every error's location must satisfy 1 <= line <= lines+1 and column <= length of that line + 1 (bytes), and io::Error::from must give InvalidData for syntax and UnexpectedEof for EOF errors; (trunc) well-formed single-datum texts from G_layout covering every token kind in both dialects (#nil #t #f, radix literals, decimals with fraction and exponent, character names, hex characters, strings with each escape form, byte vectors, shorthands, non-ASCII symbols, Emacs ? forms and string escapes) and EVERY proper byte prefix of each (exhaustive per text): a prefix either parses or fails with category EOF. non-trivial = for trunc a prefix ending strictly inside a token, for loc an error with a location; distinct by digest of (text, cut, options)",
+    rule: "(round 9: byte vectors whose octets use every number spelling, truncated at every byte) (round 8: nests at the measured nesting limit truncated at every byte; dot-, sign- and other one-character tokens at every list position; over-long decimal literals with a negative exponent - the recorded finding) (rounds 6-7: str::parse and the other option-less entry points; the character names of R6RS, R7RS and common extensions and the other fixed vocabularies of Lisp readers, and every generated text the reader accepts as one datum, truncated at every byte) (plus the I/O clause: a stream that fails - with each of four error kinds - before its first byte, or right after the last byte of a complete datum, must give an I/O-category error that converts back to the stream's own error; the predicates is_eof/is_syntax/is_io must agree with classify()) (loc) malformed inputs from the token-alphabet, mutation, string-literal and random-byte generators x sampled parser option sets x three sources x value/datum API: every error's location must satisfy 1 <= line <= lines+1 and column <= length of that line + 1 (bytes), and io::Error::from must give InvalidData for syntax and UnexpectedEof for EOF errors; (trunc) well-formed single-datum texts from G_layout covering every token kind in both dialects (#nil #t #f, radix literals, decimals with fraction and exponent, character names, hex characters, strings with each escape form, byte vectors, shorthands, non-ASCII symbols, Emacs ? forms and string escapes) and EVERY proper byte prefix of each (exhaustive per text): a prefix either parses or fails with category EOF. non-trivial = for trunc a prefix ending strictly inside a token, for loc an error with a location; distinct by digest of (text, cut, options)",
     assumptions: &[
         "only the direction stated is asserted: a malformed input classified as EOF is not a violation",
         "a line's length excludes its terminating newline",
